@@ -31,19 +31,25 @@ def fieldRole : String → Option (Region × Role)
   | "accessMmuIoCtrl" => some (.ioCtrl, .stat)
   | _ => none
 
-/-- regions copied data → snapshot by a list of (dst, src) statements -/
+/-- regions copied data → snapshot by a list of (dst, src) statements.  The NAME of a snapshot buffer carries no
+    meaning: any destination that is not itself a data or counter field is the snapshot buffer of the region of
+    the data field copied into it (that two regions do not share one buffer is `take_targets_distinct`). -/
 def takenBy (ps : List (String × String)) : List Region :=
   ps.filterMap fun (dst, src) =>
-    match fieldRole dst, fieldRole src with
-    | some (r, .snap), some (r', .data) => if r = r' then some r else none
-    | _, _ => none
+    match fieldRole src with
+    | some (r, .data) =>
+      (match fieldRole dst with
+       | some (_, .data) => none
+       | some (_, .stat) => none
+       | _ => some r)
+    | _ => none
 
-/-- regions copied snapshot → data -/
-def restoredBy (ps : List (String × String)) : List Region :=
+/-- regions copied snapshot → data: the source must be the very buffer TakeSnapshot filled from this data field -/
+def restoredBy (take ps : List (String × String)) : List Region :=
   ps.filterMap fun (dst, src) =>
-    match fieldRole dst, fieldRole src with
-    | some (r, .data), some (r', .snap) => if r = r' then some r else none
-    | _, _ => none
+    match fieldRole dst with
+    | some (r, .data) => if take.contains (src, dst) then some r else none
+    | _ => none
 
 def clearedBy (fs : List String) : List Region :=
   fs.filterMap fun f => match fieldRole f with
@@ -79,10 +85,10 @@ def takenOf : Tag → List Region
   | .f256 => takenBy F256RevBMemory_TakeSnapshot
 
 def restoredOf : Tag → List Region
-  | .linear => restoredBy LinearMemory_RestoreSnapshot
-  | .x16 => restoredBy X16Memory_RestoreSnapshot
-  | .geo => restoredBy NeoGeoRam_RestoreSnapshot
-  | .f256 => restoredBy F256RevBMemory_RestoreSnapshot
+  | .linear => restoredBy LinearMemory_TakeSnapshot LinearMemory_RestoreSnapshot
+  | .x16 => restoredBy X16Memory_TakeSnapshot X16Memory_RestoreSnapshot
+  | .geo => restoredBy NeoGeoRam_TakeSnapshot NeoGeoRam_RestoreSnapshot
+  | .f256 => restoredBy F256RevBMemory_TakeSnapshot F256RevBMemory_RestoreSnapshot
 
 /-- the model configuration of a machine kind as the code is now -/
 def cfgNow (k : MemKind) : MemCfg := ⟨k, clearedOf (tagOf k), takenOf (tagOf k), restoredOf (tagOf k)⟩
